@@ -16,11 +16,18 @@ VALUES = ["", "t", "x y", "<k/>", "<k a='1'>x</k>tail", "a&amp;b", "&lt;", "&#65
           "<k><m n=\"2\"/>z</k>", "<p:k xmlns:p='urn:u1' p:a='1'/>", "<a", "</r>", "<k a='1' a='2'/>", "a<b/>c<!--d-->e",
           "<p:k xmlns:p='urn:u1' p:a='1' a='2'/>", "&nosuch;", "<k>&#x42;</k>", "  ", "é\U0001D4B3", "<k xmlns='urn:u2'><k/></k>",
           "<k a=\"v&amp;w\"/>", "<k a='&#65;'/>", "a\"b&amp;c'd", "\"", "'", "a\"b'c", "x\"y", "it's", "<k a='x\"y'/>",
-          "<k a=\"it's\">'\"</k>", "&quot;&apos;", "a\"&amp;'", "]]>", "<?xml version='1.0'?>", "<k/><m/>", "<!--c--><k/>", "<!DOCTYPE k><k/>"]
+          "<k a=\"it's\">'\"</k>", "&quot;&apos;", "a\"&amp;'", "]]>", "<?xml version='1.0'?>", "<k/><m/>", "<!--c--><k/>", "<!DOCTYPE k><k/>",
+          # markup characters that are ordinary inside an attribute value or in text: `>`, `/>`, `]]`, a quote of the other kind
+          # (round-7 seed C17-I cut a start tag at its first `>`)
+          "<b t=\"a>b\"/>", "<k a='x > y' b=\"/>\">t</k>", "<k a='1'><m b='>'/>></k>", "a > b", "<k a=']]>'/>", "<k a='<![CDATA['>]]</k>"]
 SELECTORS = ["/", "/*", "//*", "//a", "//b", "//c", "//@*", "//@id", "//@x", "/*/*", "/*/*[1]", "/*/*[last()]", "//*[not(*)]",
              "//a//b", "//*[@id]", "/*/@*", "//a | //b/@*", "//a/.. | //c", "//*[1]", "//p:a", "//p:*", "//@p:*", "//q:b",
              "//text()", "//comment()", "//processing-instruction()", "//node()", "/* | /", "//*[2]/@*[1]", "//b/ancestor::*",
-             "//nosuch", "//@nosuch", "/*[position() = 1]", "//a[1]/following::*", "//@xml:lang", "//*[lang('en')]"]
+             "//nosuch", "//@nosuch", "/*[position() = 1]", "//a[1]/following::*", "//@xml:lang", "//*[lang('en')]",
+             # from attribute nodes upwards and sideways, by the named axes and by the abbreviations (round-7 seed C17-J: the
+             # named parent axis asked the DOM, where an attribute has no parent)
+             "//@*/parent::*", "//@id/parent::node()", "//@x/..", "//@*/ancestor::*[1]", "//@id/ancestor-or-self::node()[2]",
+             "//@x/parent::*/@*", "//@*/self::node()/..", "//@id/following::*[1]", "//@x/preceding::*[1]"]
 SCALARS = ["count(//*)", "string(/)", "1 div 0", "-1 div 0", "0 div 0", "0.1 + 0.2", "1 = 1", "//a = //b", "concat('a', 'b')",
            "string(//@*)", "sum(//@id)", "name(/*)", "100 div 7", "string-length(string(/))", "boolean(//c)", "-(0)", "1e3"]
 BROKEN = ["", "//", "/*[", "$v", "nosuch()", "count()", "//z:a", "1 +", "id('a')", "child::", "//*[", "((((1))))", "a b"]
